@@ -59,6 +59,41 @@ macro_rules! extern_wasm {
     };
 }
 
+// Verification hook (off by default): with `--cfg bytecodealliance_wit_bindgen_verif`
+// on a non-wasm target the canonical built-ins are imported as ordinary C
+// symbols (named by their wasm import name) instead of panicking shims, so
+// that a native simulator can stand in for the component-model host. This
+// definition textually shadows the one above for everything below it.
+#[cfg(bytecodealliance_wit_bindgen_verif)]
+macro_rules! extern_wasm {
+    (
+        $(#[$extern_attr:meta])*
+        unsafe extern "C" {
+            $(
+                $(#[$func_attr:meta])*
+                $vis:vis fn $func_name:ident ( $($args:tt)* ) $(-> $ret:ty)?;
+            )*
+        }
+    ) => {
+        #[cfg(not(target_family = "wasm"))]
+        unsafe extern "C" {
+            $(
+                $(#[$func_attr])*
+                $vis fn $func_name($($args)*) $(-> $ret)?;
+            )*
+        }
+
+        #[cfg(target_family = "wasm")]
+        $(#[$extern_attr])*
+        unsafe extern "C" {
+            $(
+                $(#[$func_attr])*
+                $vis fn $func_name($($args)*) $(-> $ret)?;
+            )*
+        }
+    };
+}
+
 mod abi_buffer;
 mod cabi;
 mod error_context;
